@@ -1207,3 +1207,234 @@ func ruleClientResponseShape(p *Prog, r *Out) {
 		r.check(win, "INITIAL_WINDOW_SIZE change reaches the open streams", p.pos(fd.Pos()), "if st.hasWindowSize { applyInitialWindow(new) }", "a received SETTINGS_INITIAL_WINDOW_SIZE is no longer applied to the streams that are open (RFC 7540 s6.9.2): their send windows keep the old size, so the client stalls or overruns the server's window")
 	}
 }
+
+func init() {
+	register(&Rule{
+		Name: "ctx-ownership-protocol", Props: []string{"C12", "C19", "C02"}, Engine: "AST", Floor: 6,
+		Doc: "the hand-over of a request context between its caller and the connection: acquire refuses (unlocking) once the caller took the context back; acquireFor refuses when it was taken back, belongs to another connection, or to another stream (a pure three-way disjunction); takeBack sets done under lck; markFinished sets finished under resLck; reusable is 'the timer was stopped (or never armed) and the connection has finished with it'",
+		Run: ruleCtxOwnership,
+	})
+	register(&Rule{
+		Name: "retry-predicate", Props: []string{"C11", "C12"}, Engine: "FDE", Floor: 4,
+		Doc: "retryable(err) is false for nil and true exactly for the three errors that are produced before anything is written (connection closed at pick time, no stream available, stream ids exhausted); RoundTrip returns at once on success or on a non-retryable error, never reports retry=true for those, and bounds its attempts",
+		Run: ruleRetryPredicate,
+	})
+}
+
+func lockWindow(p *Prog, list []ast.Stmt, lockText string) (lo, hi int) {
+	lo, hi = -1, -1
+	for i, s := range list {
+		if es, ok := s.(*ast.ExprStmt); ok {
+			t := squash(p.text(es.X))
+			if t == lockText+".Lock()" && lo < 0 {
+				lo = i
+			}
+			if t == lockText+".Unlock()" {
+				hi = i
+			}
+		}
+	}
+	return
+}
+
+func ruleCtxOwnership(p *Prog, r *Out) {
+	refuses := func(ifs *ast.IfStmt) bool {
+		if len(ifs.Body.List) != 2 {
+			return false
+		}
+		es, ok := ifs.Body.List[0].(*ast.ExprStmt)
+		res := retResults(ifs.Body.List[1])
+		return ok && squash(p.text(es.X)) == "ctx.lck.Unlock()" && len(res) == 1 && p.text(res[0]) == "false"
+	}
+	for _, spec := range []struct {
+		fn    string
+		atoms []string
+		why   string
+	}{
+		{"(*Ctx).acquire", []string{"ctx.done"}, "the connection goes on to use a Request and Response that were handed back to their caller"},
+		{"(*Ctx).acquireFor", []string{"ctx.done", "ctx.conn.Load()!=c", "atomic.LoadUint32(&ctx.streamID)!=id"}, "a frame is applied to a context that was handed back, recycled for another connection, or belongs to another stream: the response lands in somebody else's request"},
+	} {
+		fd := p.decl(spec.fn)
+		if fd == nil {
+			r.undecided(spec.fn, "?", "no longer resolves")
+			continue
+		}
+		r.fn(spec.fn)
+		list := fd.Body.List
+		ok := false
+		if len(list) == 3 {
+			l0, isL := list[0].(*ast.ExprStmt)
+			ifs, isIf := list[1].(*ast.IfStmt)
+			res := retResults(list[2])
+			if isL && isIf && squash(p.text(l0.X)) == "ctx.lck.Lock()" && len(res) == 1 && p.text(res[0]) == "true" && refuses(ifs) {
+				atoms, pure := pureJunction(ifs.Cond, false)
+				want := map[string]bool{}
+				for _, a := range spec.atoms {
+					want[a] = true
+				}
+				good := pure && len(atoms) == len(spec.atoms)
+				for _, a := range atoms {
+					if a.Val || !want[squash(p.text(a.Cond))] {
+						good = false
+					}
+				}
+				ok = good
+			}
+		}
+		r.check(ok, spec.fn+" refuses a context that is not the connection's", p.pos(fd.Pos()), "Lock; if "+strings.Join(spec.atoms, " || ")+" { Unlock; return false }; return true", spec.fn+" no longer is `lock; refuse (unlocking) when "+strings.Join(spec.atoms, " or ")+"; else return true holding the lock`: "+spec.why)
+	}
+	if fd := p.decl("(*Ctx).takeBack"); fd != nil {
+		r.fn("(*Ctx).takeBack")
+		lo, hi := lockWindow(p, fd.Body.List, "ctx.lck")
+		set := -1
+		for i, s := range fd.Body.List {
+			if as, ok := s.(*ast.AssignStmt); ok && squash(p.text(as.Lhs[0])) == "ctx.done" && p.text(as.Rhs[0]) == "true" {
+				set = i
+			}
+		}
+		r.check(lo >= 0 && lo < set && set < hi, "takeBack marks done under lck", p.pos(fd.Pos()), "lck.Lock(); done = true; lck.Unlock()", "takeBack no longer sets done while holding lck: it returns while the connection is still inside the Request/Response, or never stops it from entering again")
+	}
+	if fd := p.decl("(*Ctx).markFinished"); fd != nil {
+		r.fn("(*Ctx).markFinished")
+		lo, hi := lockWindow(p, fd.Body.List, "ctx.resLck")
+		set := -1
+		for i, s := range fd.Body.List {
+			if as, ok := s.(*ast.AssignStmt); ok && squash(p.text(as.Lhs[0])) == "ctx.finished" && p.text(as.Rhs[0]) == "true" {
+				set = i
+			}
+		}
+		r.check(lo >= 0 && lo < set && set < hi, "markFinished marks finished under resLck", p.pos(fd.Pos()), "resLck.Lock(); finished = true; resLck.Unlock()", "markFinished no longer sets finished under resLck: a context is never reusable (every request allocates), or reusable() reads it unsynchronised")
+	}
+	if fd := p.decl("(*Ctx).reusable"); fd != nil {
+		r.fn("(*Ctx).reusable")
+		initTrue, stopOK, retOK := false, false, false
+		for _, s := range fd.Body.List {
+			switch x := s.(type) {
+			case *ast.AssignStmt:
+				if p.text(x.Lhs[0]) == "stopped" && p.text(x.Rhs[0]) == "true" && x.Tok == token.DEFINE {
+					initTrue = true
+				}
+			case *ast.IfStmt:
+				if squash(p.text(x.Cond)) == "ctx.armed" {
+					dis, st := false, false
+					for _, b := range x.Body.List {
+						if as, ok := b.(*ast.AssignStmt); ok {
+							if squash(p.text(as.Lhs[0])) == "ctx.armed" && p.text(as.Rhs[0]) == "false" {
+								dis = true
+							}
+							if p.text(as.Lhs[0]) == "stopped" && squash(p.text(as.Rhs[0])) == "ctx.timer.Stop()" {
+								st = true
+							}
+						}
+					}
+					stopOK = dis && st
+				}
+			case *ast.ReturnStmt:
+				if len(x.Results) == 1 && p.isConjunctionOf(x.Results[0], "stopped", "ctx.finished") {
+					retOK = true
+				}
+			}
+		}
+		r.check(initTrue && stopOK && retOK, "reusable = timer stopped and connection finished", p.pos(fd.Pos()), "stopped := true; if armed { armed = false; stopped = timer.Stop() }; return stopped && finished", "reusable no longer means 'the cancel timer cannot fire any more and the connection dropped the stream': a context goes back to the pool while its timer or the read loop can still reach it, and the next request that draws it is cancelled or answered by a stranger")
+	}
+	if fd := p.decl("(*Client).roundTripOnce"); fd != nil {
+		r.fn("(*Client).roundTripOnce")
+		armOK := false
+		for _, s := range fd.Body.List {
+			if ifs, ok := s.(*ast.IfStmt); ok {
+				if c, okc := p.canonCmp(ifs.Cond, nil); okc && c.Op == "le" && c.L.eq(Lin{T: map[string]int64{"cl.opts.MaxResponseTime": -1}, C: 1}) {
+					a, rs := false, false
+					for _, b := range ifs.Body.List {
+						if as, ok := b.(*ast.AssignStmt); ok && squash(p.text(as.Lhs[0])) == "ctx.armed" && p.text(as.Rhs[0]) == "true" {
+							a = true
+						}
+						if es, ok := b.(*ast.ExprStmt); ok && squash(p.text(es.X)) == "ctx.timer.Reset(cl.opts.MaxResponseTime)" {
+							rs = true
+						}
+					}
+					armOK = a && rs
+				}
+			}
+		}
+		r.check(armOK, "response timer armed and recorded together", p.pos(fd.Pos()), "if MaxResponseTime > 0 { armed = true; timer.Reset(MaxResponseTime) }", "the request's response timer is no longer armed, and marked armed, exactly when a response time is configured: the request has no timeout, or reusable() does not stop a timer that is running")
+	}
+}
+
+func ruleRetryPredicate(p *Prog, r *Out) {
+	if fd := p.decl("retryable"); fd != nil {
+		r.fn("retryable")
+		nilFalse := false
+		if ifs, ok := fd.Body.List[0].(*ast.IfStmt); ok && squash(p.text(ifs.Cond)) == "err==nil" {
+			if res := firstReturn(ifs.Body); len(res) == 1 && p.text(res[0]) == "false" {
+				nilFalse = true
+			}
+		}
+		r.check(nilFalse, "success is not retryable", p.pos(fd.Pos()), "if err == nil { return false }", "retryable no longer answers false for a nil error")
+		last := retResults(fd.Body.List[len(fd.Body.List)-1])
+		ok := false
+		got := []string{}
+		if len(last) == 1 {
+			atoms, pure := pureJunction(last[0], false)
+			want := map[string]bool{"errors.Is(err,ErrConnectionClosed)": true, "errors.Is(err,ErrNotAvailableStreams)": true, "errors.Is(err,ErrNoMoreStreamIDs)": true}
+			ok = pure && len(atoms) == 3
+			for _, a := range atoms {
+				t := squash(p.text(a.Cond))
+				got = append(got, t)
+				if a.Val || !want[t] {
+					ok = false
+				}
+			}
+		}
+		r.check(ok, "retryable is exactly the three pre-wire errors", p.pos(fd.Pos()), "Is(ErrConnectionClosed) || Is(ErrNotAvailableStreams) || Is(ErrNoMoreStreamIDs)", fmt.Sprintf("retryable's verdict is no longer the plain disjunction of the three errors that are only produced before a request is written (found %v): a request the server may have processed is sent again, or one it never saw is not", got))
+	} else {
+		r.undecided("retryable", "?", "no longer resolves")
+	}
+	if fd := p.decl("(*Client).RoundTrip"); fd != nil {
+		r.fn("(*Client).RoundTrip")
+		c := fdeCheck{p, r, p.pos(fd.Pos())}
+		var loop *ast.ForStmt
+		for _, s := range fd.Body.List {
+			if fs, ok := s.(*ast.ForStmt); ok {
+				loop = fs
+			}
+		}
+		if loop == nil {
+			r.bad("RoundTrip retry loop", c.pos, "RoundTrip has no retry loop")
+			return
+		}
+		var stopIf, lastIf *ast.IfStmt
+		for _, s := range loop.Body.List {
+			if ifs, ok := s.(*ast.IfStmt); ok {
+				if strings.Contains(p.text(ifs.Cond), "retryable") {
+					stopIf = ifs
+				} else if mentionsIdent(ifs.Cond, "attempt") {
+					lastIf = ifs
+				}
+			}
+		}
+		if stopIf != nil {
+			c.expr("RoundTrip stops on success or a non-retryable error", stopIf.Cond, fdeDomain{[]string{"err==nil", "retryable(err)"}, [][]int64{{0, 1}, {0, 1}}}, nil, func(e fdeEnv) int64 { return b2i(e["err==nil"] != 0 || e["retryable(err)"] == 0) }, "err == nil || !retryable(err)", "anything else re-sends a request the server may have processed, or loops on a success")
+			res := firstReturn(stopIf.Body)
+			r.check(len(res) == 2 && p.text(res[0]) == "false" && p.text(res[1]) == "err", "no retry flag on success or a processed request", p.pos(stopIf.Pos()), "return false, err", "RoundTrip reports retry=true for a request that succeeded or that the server may have processed: fasthttp sends it again")
+		} else {
+			r.bad("RoundTrip stops on success or a non-retryable error", c.pos, "no stop test in the retry loop")
+		}
+		bounded := false
+		if lastIf != nil {
+			if cmp, ok := p.canonCmp(lastIf.Cond, nil); ok && cmp.Op == "eq" && len(cmp.L.T) == 1 {
+				if res := firstReturn(lastIf.Body); len(res) == 2 && p.text(res[0]) == "true" {
+					bounded = true
+				}
+			}
+		}
+		inc, _ := loop.Post.(*ast.IncDecStmt)
+		initOK := false
+		if as, ok := loop.Init.(*ast.AssignStmt); ok {
+			if v, okv := p.intConst(as.Rhs[0]); okv && v == 0 {
+				initOK = true
+			}
+		}
+		n, _ := p.pkgConst("roundTripAttempts")
+		r.check(bounded && inc != nil && inc.Tok == token.INC && initOK && n >= 1 && n <= 16, "RoundTrip bounds its attempts", p.pos(loop.Pos()), "for attempt := 0; ; attempt++ { ...; if attempt == N-1 { return true, err } }", "the retry loop no longer counts its attempts up from zero to a small bound: a connection that keeps turning the request away keeps it spinning")
+	}
+}
